@@ -329,8 +329,7 @@ class CurveFitting(object):
         sy2 = self._W
         dx = n * sx2 - sx * sx
         dy = n * sy2 - sy * sy
-        if (dx < TOL * max(1.0, abs(n * sx2))
-                or dy < TOL * max(1.0, abs(n * sy2))):
+        if (dx <= TOL * abs(n * sx2) or dy <= TOL * abs(n * sy2)):
             # All the 'x' (or all the 'y') values are equal
             raise ZeroDivisionError("Input data leads to a division by zero")
         r = (n * sxy - sx * sy) / (sqrt(dx) * sqrt(dy))
